@@ -282,6 +282,21 @@ class BytesProfile:
                                                       "well-formed lines are treated differently when junk lines are mixed in: %s" % first_diff(A, kept)))
                     res.extra["junk_runs"] = 1
                     res.extra["junk_lines"] = sum(1 for _, j in seq if j)
+                    # D: junk interleaved AND arbitrary read boundaries (several lines, junk included, in one read)
+                    if not res.viol:
+                        dataD = b"".join(l + b"\n" for l, _ in seq)
+                        chunksD = segment(rnd, dataD, rnd.choice(["mixed", "big", "one", "mixed"]))
+                        od, exd, hd, dd = raw_run(cfg, chunksD, tag + "d")
+                        hs.append(hd)
+                        v = clean_exit_viol(exd, dd, "run D (junk + segmentation)")
+                        strip = lambda b: b"\n".join(x for x in b.split(b"\n") if not x.startswith(b"> :"))
+                        if v:
+                            res.viol.append(v)
+                        elif strip(b"".join(od)) != strip(A):
+                            res.viol.append(Violation("C08", "junk-and-chunking-change-treatment",
+                                                      "well-formed lines are treated differently when junk lines share their read() chunk: %s" %
+                                                      first_diff(strip(A), strip(b"".join(od)))))
+                        res.extra["junk_segmented_runs"] = 1
             for l in S[:200]:
                 res.transcript.append(("line", l.decode("latin1")[:200], []))
             res.steps = len(S)
